@@ -1,9 +1,9 @@
 package props
 
 import (
-	"os"
-	"go/types"
 	"fmt"
+	"go/types"
+	"os"
 	"sort"
 	"strings"
 
